@@ -216,3 +216,36 @@ Definition event_slots (e : event) : list skind :=
 
 Definition plan_slots (ps : list mparam) : list skind :=
   flat_map event_slots (with_bundling ps).
+
+(* ---- natural (C / C++) layout of a bundle struct vs the packed layout the size literal and
+        the Rust stub assume ---- *)
+Fixpoint c_align_mty (t : mty) : N :=
+  match t with
+  | MPrim p => mir_prim_size p
+  | MIface _ => 8
+  | MBuffer => 1
+  | MStruct _ fs =>
+      (fix go (fs : list (string * mty * N)) : N :=
+         match fs with [] => 1 | (_, ft, _) :: r => N.max (c_align_mty ft) (go r) end) fs
+  end.
+
+Definition round_up_n (o a : N) : N :=
+  if a =? 0 then o else if o mod a =? 0 then o else o + (a - o mod a).
+
+Fixpoint natural_offsets (ms : list mparam) (off : N) : list N :=
+  match ms with
+  | [] => []
+  | m :: r => let o := round_up_n off (c_align_mty (mp_ty m)) in o :: natural_offsets r (o + psize m)
+  end.
+Fixpoint packed_offsets (ms : list mparam) (off : N) : list N :=
+  match ms with
+  | [] => []
+  | m :: r => off :: packed_offsets r (off + psize m)
+  end.
+
+Definition bundle_padded (ms : list mparam) : bool :=
+  negb (list_eqb N.eqb (natural_offsets ms 0) (packed_offsets ms 0)).
+
+Definition has_padded_bundle (ps : list mparam) : bool :=
+  ((1 <? N.of_nat (List.length (packed false ps))) && bundle_padded (packed false ps)) ||
+  ((1 <? N.of_nat (List.length (packed true ps))) && bundle_padded (packed true ps)).
